@@ -72,13 +72,23 @@ func renderRun(j renderJob, shades [][]int) *trace.Scenario {
 		// area several objects compete, transparent and opaque ones, with either palette, flipped or not
 		crowd := rng.Intn(3) == 0
 		crowdX := 8 + rng.Intn(150)
+		// every fifth scene (unless a crowd): six objects on the bottom lines and five on the top lines, side by side -
+		// never more than ten on a line, eleven if a per-line count leaked from line 143 of one frame into line 0 of the next
+		edges := !crowd && rng.Intn(5) == 0
 		if crowd {
 			nobj = 10
+		}
+		if edges {
+			nobj = 11
 		}
 		xs := make([]int, nobj)
 		for i := range xs {
 			if crowd {
 				xs[i] = crowdX + rng.Intn(10)
+				continue
+			}
+			if edges {
+				xs[i] = 10 + 13*i + rng.Intn(4)
 				continue
 			}
 			switch rng.Intn(5) {
@@ -99,6 +109,11 @@ func renderRun(j renderJob, shades [][]int) *trace.Scenario {
 				x = xs[i]
 				if crowd {
 					y = baseY + rng.Intn(8) - 4
+				} else if edges {
+					y = []int{152, 16}[i%2]
+					if i == 0 {
+						y = 152
+					}
 				} else {
 					switch rng.Intn(6) {
 					case 0:
